@@ -860,7 +860,7 @@ def distribution(t, n_arr, tol=1e-9):
         if -n_arr <= i < 0:
             i += n_arr
         d[i] = d.get(i, 0.0) + float(w)
-    return {i: w for i, w in d.items() if abs(w) > tol}
+    return {i: w for i, w in d.items() if not (abs(w) <= tol)}  # a NaN weight is kept (and then differs)
 
 
 def same_axis(model, real, exact, n_arr):
@@ -1209,7 +1209,7 @@ def evaluate(ctx, ev, spec, axes, meta, sides, res):
             ctx.monitor_fail(leg, case, real, ref, what, key={"op": leg, "cls": m["cls"]})
             return
         for c, r in zip(comps, real):
-            if r < min(c) - tol or r > max(c) + tol:
+            if not (min(c) - tol <= r <= max(c) + tol):
                 ctx.monitor_fail(leg, case, r, [min(c), max(c)], "interpolated value outside the range of the data",
                                  key={"op": leg, "cls": m["cls"]})
                 return
